@@ -38,7 +38,7 @@ class WorldC07(World):
               'adsorption-reaction', 'lateral-interactions', 'unnamed-interaction', 'motz-wise-on', 'shomate-species', 'nasa9-species',
               'cti-executed', 'yaml-loaded', 'reactor-yaml', 'reactor-reused-dict', 'numpy-values', 'string-values-with-units',
               'units-omitted', 'text-path', 'file-path', 'overwrite', 'write-after-failed-write', 'recovery-after-fault',
-              'clock-jump-before-write', 'default-units')
+              'clock-jump-before-write', 'default-units', 'bep-section-judged')
     REAL = ('pmutt.io.omkm (write_cti, write_thermo_yaml, write_yaml, organize_phases)', 'pmutt.omkm.phase / pmutt.cantera.phase',
             'pmutt.omkm.reaction.SurfaceReaction / BEP', 'pmutt.mixture.cov.PiecewiseCovEffect', 'Nasa / Nasa9 / Shomate emitters',
             'pmutt.io.ctml_writer (the repo\'s CTI interpreter, used to execute written CTI text)', 'PyYAML')
@@ -716,6 +716,60 @@ class WorldC07(World):
                     what, e['strengths'], d['slopes'], want, units.energy, units.quantity))
 
     @staticmethod
+    def _expand_ranges(items):
+        """['r_0003 to r_0005', 'r_0009'] -> ['r_0003', 'r_0004', 'r_0005', 'r_0009'] (independent of pmutt.cantera)."""
+        out = []
+        if items is None:
+            return out
+        if isinstance(items, str):
+            items = [items]
+        for it in items:
+            it = str(it).strip()
+            if ' to ' in it:
+                lo, hi = [x.strip() for x in it.split(' to ')]
+                pre, a = lo.rsplit('_', 1)
+                pre2, b = hi.rsplit('_', 1)
+                if pre != pre2:
+                    raise ValueError(it)
+                for k in range(int(a), int(b) + 1):
+                    out.append('%s_%0*d' % (pre, len(a), k))
+            elif it:
+                out.append(it)
+        return out
+
+    def _judge_beps(self, entries, order, ids_by_pos, units, what):
+        """entries: list of dict(id, slope, intercept, direction, cleavage [ids], synthesis [ids])."""
+        md = self.md
+        from pmutt import constants as c
+        used = []
+        for i in order:
+            b = md['reactions'][i]['bep']
+            if b is not None and b not in used:
+                used.append(b)
+        if len(entries) != len(used):
+            raise Violation('beps-say-what-the-objects-say', '%s: %d BEP relationships are used by the written reactions, %d are '
+                            'written' % (what, len(used), len(entries)))
+        self._check_ids([e['id'] for e in entries], what, 'BEP')
+        if used:
+            self.ctx.probe('bep-section-judged')
+        for e, b in zip(entries, used):
+            d = md['beps'][b]
+            if d['name'] is not None and e['id'] != d['name']:
+                raise Violation('beps-say-what-the-objects-say', '%s: BEP named %r written with id %r' % (what, d['name'], e['id']))
+            want_int = c.convert_unit(d['intercept'], 'kcal/mol', units.act_energy)
+            if not close(e['slope'], d['slope'], 1e-12) or not close(e['intercept'], want_int, 1e-9) or e['direction'] != d['direction']:
+                raise Violation('beps-say-what-the-objects-say', '%s: BEP %r written with slope %r intercept %r direction %r; object '
+                                'has slope %r intercept %r kcal/mol = %r %s direction %r' % (
+                                    what, e['id'], e['slope'], e['intercept'], e['direction'], d['slope'], d['intercept'], want_int,
+                                    units.act_energy, d['direction']))
+            members = sorted(ids_by_pos[pos] for pos, i in enumerate(order) if md['reactions'][i]['bep'] == b)
+            key = 'cleavage' if d['direction'] == 'cleavage' else 'synthesis'
+            other = 'synthesis' if key == 'cleavage' else 'cleavage'
+            if sorted(e[key]) != members or e[other]:
+                raise Violation('beps-say-what-the-objects-say', '%s: BEP %r lists %s reactions %r and %s reactions %r; its members are '
+                                '%r' % (what, e['id'], key, e[key], other, e[other], members))
+
+    @staticmethod
     def _val_unit(s):
         m = re.match(r'^\s*([-+0-9.eE]+)\s*(\S.*)?$', str(s))
         if not m:
@@ -766,6 +820,18 @@ class WorldC07(World):
                     raise Violation('rate-parameters', '%s: Motz-Wise %r written for %r, requested %r' % (
                         what, r.get('Motz-Wise'), r.get('equation'), a['use_motz_wise']))
         self._judge_reactions(entries, order, units, tw, a, what)
+        bents = []
+        for bd in doc.get('beps') or []:
+            try:
+                iv, iu = self._val_unit(bd.get('intercept'))
+                bents.append({'id': bd.get('id'), 'slope': bd.get('slope'), 'intercept': iv, 'direction': bd.get('direction'),
+                              'cleavage': self._expand_ranges(bd.get('cleavage-reactions')),
+                              'synthesis': self._expand_ranges(bd.get('synthesis-reactions'))})
+            except ValueError:
+                raise Violation('beps-say-what-the-objects-say', '%s: BEP entry %r cannot be read' % (what, bd))
+            if iu != units.act_energy:
+                raise Violation('beps-say-what-the-objects-say', '%s: BEP intercept unit %r, requested %r' % (what, iu, units.act_energy))
+        self._judge_beps(bents, order, [e['id'] for e in entries], units, what)
         if with_inter:
             ents = []
             for i in doc.get('interactions') or []:
@@ -845,6 +911,13 @@ class WorldC07(World):
                 k, A, b, Ea = 'rate', kf[0], kf[1], kf[2]
             entries.append({'equation': r._e, 'id': r._id, 'kind': k, 'A': A, 'b': b, 'Ea': Ea, 'tol': 6e-6})
         self._judge_reactions(entries, order, units, tw, a, what)
+        try:
+            bents = [{'id': b._id, 'slope': b._alpha, 'intercept': b._beta, 'direction': b._direction,
+                      'cleavage': self._expand_ranges(b._clv_rxns), 'synthesis': self._expand_ranges(b._syn_rxns)}
+                     for b in cw._beps]
+        except (ValueError, AttributeError) as e:
+            raise Violation('beps-say-what-the-objects-say', '%s: BEP directives cannot be read: %s' % (what, e))
+        self._judge_beps(bents, order, [e['id'] for e in entries], units, what)
         if with_inter:
             ents = [{'species': i._species.split() if isinstance(i._species, str) else list(i._species), 'id': i._id,
                      'thresholds': list(i._coverage_thresholds), 'strengths': list(i._strengths)} for i in cw._interactions]
